@@ -1,0 +1,58 @@
+//go:build verif
+
+package iavl
+
+import (
+	"fmt"
+	"sort"
+)
+
+// Verification hooks (build tag `verif` only; see /verif/DESIGN.md §2.3). Nothing in this file is
+// compiled into a normal build.
+
+// VerifFacts reports the package-level constants the formal model is parametrised by, as
+// evaluated by the compiler for the tree being built.
+func VerifFacts() []string {
+	m := map[string]string{
+		"int32Size":                   fmt.Sprint(int32Size),
+		"int64Size":                   fmt.Sprint(int64Size),
+		"hashSize":                    fmt.Sprint(hashSize),
+		"genesisVersion":              fmt.Sprint(genesisVersion),
+		"storageVersionKey":           fmt.Sprintf("%q", storageVersionKey),
+		"fastStorageVersionDelimiter": fmt.Sprintf("%q", fastStorageVersionDelimiter),
+		"defaultStorageVersionValue":  fmt.Sprintf("%q", defaultStorageVersionValue),
+		"fastStorageVersionValue":     fmt.Sprintf("%q", fastStorageVersionValue),
+		"maxBatchSize":                fmt.Sprint(maxBatchSize),
+		"modeLegacyLeftNode":          fmt.Sprint(ModeLegacyLeftNode),
+		"modeLegacyRightNode":         fmt.Sprint(ModeLegacyRightNode),
+		"nodeKeyPrefix":               fmt.Sprint(nodeKeyFormat.Prefix()[0]),
+		"nodeKeyLength":               fmt.Sprint(nodeKeyFormat.Length()),
+		"nodeKeyPrefixLength":         fmt.Sprint(nodeKeyPrefixFormat.Length()),
+		"fastKeyPrefix":               fmt.Sprint(fastKeyFormat.Key()[0]),
+		"metadataKeyPrefix":           fmt.Sprint(metadataKeyFormat.Key()[0]),
+		"legacyNodeKeyPrefix":         fmt.Sprint(legacyNodeKeyFormat.Prefix()[0]),
+		"legacyOrphanKeyPrefix":       fmt.Sprint(legacyOrphanKeyFormat.Key()[0]),
+		"legacyRootKeyPrefix":         fmt.Sprint(legacyRootKeyFormat.Key()[0]),
+		"defaultFlushThreshold":       fmt.Sprint(DefaultOptions().FlushThreshold),
+	}
+	keys := make([]string, 0, len(m))
+	for k := range m {
+		keys = append(keys, k)
+	}
+	sort.Strings(keys)
+	out := make([]string, 0, len(keys))
+	for _, k := range keys {
+		out = append(out, k+"="+m[k])
+	}
+	return out
+}
+
+// VerifYield, when set, is called at the commit-protocol boundaries named in property C06 so that
+// a schedule explorer can park the calling goroutine there.
+var VerifYield func(point string)
+
+func verifYield(point string) {
+	if f := VerifYield; f != nil {
+		f(point)
+	}
+}
